@@ -404,3 +404,259 @@ func (c *Ctx) constOf(pkgShort, name string) string {
 	}
 	return "const:" + v.ExactString()
 }
+
+// ---------------------------------------------------------------- composition
+
+// extractTableComposed: the decision table of fn with calls of small loop-free helpers of the module, whose results
+// are tested by fn's conditions, replaced by what those helpers return: for every path of the helper a copy of fn's
+// table in which the call is spelled as that path's result, under that path's conditions (in terms of the call's
+// arguments). Rows whose conditions contradict each other are dropped. Falls back to the plain table when there is
+// nothing to compose.
+func (c *Ctx) extractTableComposed(fn *ssa.Function, depth int) (*dtable, error) {
+	tb, err := extractTable(fn)
+	if err != nil || depth > 2 {
+		return tb, err
+	}
+	// helper calls among the operands of the conditions
+	var target *ssa.Call
+	var visit func(v ssa.Value, d int)
+	visit = func(v ssa.Value, d int) {
+		if target != nil || d > 4 || v == nil {
+			return
+		}
+		if _, done := canonSubst[v]; done {
+			return
+		}
+		switch x := v.(type) {
+		case *ssa.Call:
+			h := x.Call.StaticCallee()
+			if h != nil && !x.Call.IsInvoke() && c.P.isModuleFn(h) && !isProtoPkg(fnPkgPath(h)) && !isPureLeaf(h) && len(h.Blocks) > 0 &&
+				h.Signature.Results().Len() == 1 && len(h.Params) == len(x.Call.Args) && x.Parent() == fn {
+				target = x
+			}
+		case *ssa.BinOp:
+			visit(x.X, d+1)
+			visit(x.Y, d+1)
+		case *ssa.UnOp:
+			visit(x.X, d+1)
+		case *ssa.Convert:
+			visit(x.X, d+1)
+		case *ssa.ChangeType:
+			visit(x.X, d+1)
+		}
+	}
+	for _, r := range tb.rows {
+		for _, a := range r.conds {
+			visit(a.v, 0)
+		}
+	}
+	if target == nil {
+		return tb, nil
+	}
+	h := target.Call.StaticCallee()
+	saved := canonSubst
+	restore := func() { canonSubst = saved }
+	defer restore()
+	with := func(extra map[ssa.Value]string) {
+		m := map[ssa.Value]string{}
+		for k, v := range saved {
+			m[k] = v
+		}
+		for k, v := range extra {
+			m[k] = v
+		}
+		canonSubst = m
+	}
+	// the helper's table in terms of the call's arguments
+	args := map[ssa.Value]string{}
+	for i, pa := range h.Params {
+		args[pa] = canon(target.Call.Args[i])
+	}
+	with(args)
+	inner, err := c.extractTableComposed(h, depth+1)
+	if err != nil || len(inner.rows) > 8 {
+		canonSubst = saved
+		return tb, nil // not a small loop-free helper: leave the call opaque
+	}
+	type alt struct {
+		conds []atom
+		res   string
+	}
+	var alts []alt
+	for _, ir := range inner.rows {
+		if ir.panics || len(ir.results) != 1 {
+			canonSubst = saved
+			return tb, nil
+		}
+		res := strings.TrimPrefix(strings.TrimPrefix(ir.results[0], "expr:"), "const:")
+		if strings.HasPrefix(ir.results[0], "const:") {
+			res = "const(" + res + ")"
+		}
+		alts = append(alts, alt{ir.conds, res})
+	}
+	out := &dtable{fn: fn}
+	for _, al := range alts {
+		with(map[ssa.Value]string{target: al.res})
+		tk, err := c.extractTableComposed(fn, depth+1)
+		if err != nil {
+			canonSubst = saved
+			return tb, nil
+		}
+		for _, r := range tk.rows {
+			conds := append(append([]atom{}, al.conds...), r.conds...)
+			bad := false
+			for i := range conds {
+				if contradicts(conds[:i], conds[i]) {
+					bad = true
+				}
+			}
+			if bad {
+				continue
+			}
+			r.conds = conds
+			out.rows = append(out.rows, r)
+		}
+	}
+	return out, nil
+}
+
+// ---------------------------------------------------------------- semantic comparison of decision tables
+
+type prow struct {
+	atoms []patom
+	res   string
+}
+type patom struct {
+	key string // the positive form: "S==k" or an opaque expression
+	pos bool
+}
+
+// parseRow reads a row as printed by condsString + " -> " + result. ok=false: the row can never match (a condition
+// that is false whatever the input, e.g. const(0)!=0).
+func parseRow(r string) (prow, bool) {
+	i := strings.LastIndex(r, " -> ")
+	out := prow{res: r[i+4:]}
+	for _, a := range strings.Split(r[:i], " && ") {
+		if a == "" {
+			continue
+		}
+		pa := patom{pos: true}
+		switch {
+		case strings.HasPrefix(a, "!(") && strings.HasSuffix(a, ")"):
+			pa.key, pa.pos = a[2:len(a)-1], false
+		case strings.Contains(a, "!=") && !strings.HasPrefix(a, "("):
+			j := strings.LastIndex(a, "!=")
+			pa.key, pa.pos = a[:j]+"=="+a[j+2:], false
+		default:
+			pa.key = a
+		}
+		// conditions on constants
+		if j := strings.LastIndex(pa.key, "=="); j > 0 && strings.HasPrefix(pa.key, "const(") && !strings.HasPrefix(pa.key, "(") {
+			lhs := strings.TrimSuffix(strings.TrimPrefix(pa.key[:j], "const("), ")")
+			truth := lhs == pa.key[j+2:]
+			if truth != pa.pos {
+				return out, false
+			}
+			continue
+		}
+		out.atoms = append(out.atoms, pa)
+	}
+	return out, true
+}
+
+// tablesEquivalent: the two tables (rows as printed) answer alike for every assignment of truth values to the
+// conditions they mention (equalities of one subject with different constants are mutually exclusive). Impossible
+// assignments are included on both sides alike, so they cannot make equivalent tables differ unless one of them
+// relies on an impossibility the other does not.
+func tablesEquivalent(got, want []string) (bool, string) {
+	parse := func(rows []string) []prow {
+		var out []prow
+		for _, r := range rows {
+			if pr, ok := parseRow(r); ok {
+				out = append(out, pr)
+			}
+		}
+		return out
+	}
+	g, w := parse(got), parse(want)
+	keys := map[string]bool{}
+	for _, rows := range [][]prow{g, w} {
+		for _, r := range rows {
+			for _, a := range r.atoms {
+				keys[a.key] = true
+			}
+		}
+	}
+	var ks []string
+	for k := range keys {
+		ks = append(ks, k)
+	}
+	sort.Strings(ks)
+	if len(ks) > 16 {
+		return false, fmt.Sprintf("%d distinct conditions: too many to compare exhaustively", len(ks))
+	}
+	idx := map[string]int{}
+	subjOf := map[int]string{}
+	for i, k := range ks {
+		idx[k] = i
+		if j := strings.LastIndex(k, "=="); j > 0 && !strings.HasPrefix(k, "(") {
+			subjOf[i] = k[:j]
+		}
+	}
+	eval := func(rows []prow, val uint) (string, bool) {
+		res := ""
+		for _, r := range rows {
+			match := true
+			for _, a := range r.atoms {
+				if (val>>uint(idx[a.key])&1 == 1) != a.pos {
+					match = false
+					break
+				}
+			}
+			if !match {
+				continue
+			}
+			if res != "" && res != r.res {
+				return "ambiguous: " + res + " and " + r.res, false
+			}
+			res = r.res
+		}
+		if res == "" {
+			return "no row", false
+		}
+		return res, true
+	}
+	for val := uint(0); val < 1<<uint(len(ks)); val++ {
+		// one subject equals at most one constant
+		okVal := true
+		seen := map[string]bool{}
+		for i := range ks {
+			if val>>uint(i)&1 == 1 && subjOf[i] != "" {
+				if seen[subjOf[i]] {
+					okVal = false
+				}
+				seen[subjOf[i]] = true
+			}
+		}
+		if !okVal {
+			continue
+		}
+		rw, okW := eval(w, val)
+		if !okW {
+			continue // the definition does not speak about this assignment (it cannot occur)
+		}
+		rg, okG := eval(g, val)
+		if !okG || rg != rw {
+			var desc []string
+			for i, k := range ks {
+				if val>>uint(i)&1 == 1 {
+					desc = append(desc, k)
+				} else {
+					desc = append(desc, "!("+k+")")
+				}
+			}
+			return false, "under " + strings.Join(desc, " && ") + " the code answers " + rg + ", the definition " + rw
+		}
+	}
+	return true, ""
+}
